@@ -169,6 +169,10 @@ fn main() {
         }
     };
     let ctx = Ctx::new(&id, tier, seed, replay.is_some());
+    if matches!(id.as_str(), "C01" | "C02" | "C08") {
+        // termination of the loader is part of C02 (and a precondition of the other two): 30 s of CPU time for one call
+        start_watchdog(&ctx, 30);
+    }
     // run on a big stack: deep recursion in the code under test must not be confused with harness limits
     let code = std::thread::scope(|s| {
         std::thread::Builder::new()
